@@ -326,6 +326,10 @@ func (g *G) basePlan(prop string, seed uint64) *Plan {
 	if sp.NURLs > 1 && g.chance(60) {
 		sp.LagMax = g.between(1, 3)
 	}
+	if g.chance(2) {
+		// a chain id beyond 31 bits (such chains exist; known finding F35)
+		sp.ChainID = 11297108109
+	}
 	if g.chance(12) {
 		// a large batch (more blocks per step and per partition than any small
 		// constant) on a chain long enough to fill it
